@@ -594,6 +594,23 @@ def gen_event_sync_scenario(seed: int, case_no: int) -> dict:
             "seed": seed, "case_no": case_no, "T": T, "epoch": epoch, "kinds": kinds}
 
 
+def gen_deep_case(seed: int, case_no: int, depth: int = 1100) -> dict:
+    """one host thread whose events nest `depth` levels deep (a recursive Python function recorded with_stack=True does this), the
+    innermost one launching a kernel"""
+    rng = random.Random(seed * 7_000_003 + case_no)
+    evs = [{"ph": "X", "cat": "cpu_op", "name": "aten::zeros", "pid": 100, "tid": 1, "ts": 0, "dur": 2, "args": {"External id": 1}}]
+    for i in range(depth):
+        evs.append({"ph": "X", "cat": "cpu_op", "name": f"recurse_{i % 5}", "pid": 100, "tid": 1, "ts": 10 + i, "dur": 4 * depth - 2 * i,
+                    "args": {"External id": 2 + i}})
+    t = 10 + depth + 2
+    evs.append({"ph": "X", "cat": "cuda_runtime", "name": "cudaLaunchKernel", "pid": 100, "tid": 1, "ts": t, "dur": 3, "args": {"correlation": 7, "External id": 9}})
+    evs.append({"ph": "X", "cat": "kernel", "name": "gemm", "pid": 0, "tid": 7, "ts": t + 5, "dur": 20, "args": {"stream": 7, "device": 0, "correlation": 7}})
+    first, rest = evs[0], evs[1:]
+    rng.shuffle(rest)
+    return {"ranks": {0: {"events": [first] + rest, "fmt": "json", "indent": False}}, "profile": "deep", "seed": seed, "case_no": case_no,
+            "T": 5 * depth, "epoch": 0, "deep": depth}
+
+
 def gen_chain_case(seed: int, case_no: int) -> dict:
     """Narrow-column family: every duration of the rank is below 128 (the parser down-casts the dur column to int8; ids and
     counts stay small too) while SUMS and UNIONS of them are not: a chain of kernels of 60-110 us staggered every 40 us on two or
@@ -644,7 +661,7 @@ def bigvocab(name: str) -> Profile:
     return replace(p, name=name + "+bigvocab", n_ranks=(max(2, p.n_ranks[0]), max(3, p.n_ranks[1])), n_pad=(60, 100), unique_pad_names=True)
 
 
-def make_superset_rank(case: dict, rng) -> None:
+def make_superset_rank(case: dict, rng, fresh_ids: bool = False) -> None:
     """one later rank whose vocabulary is the union of all ranks' (its local symbol table has the job table's size, in another
     order): copies of the other ranks' entries are appended to it"""
     import copy
@@ -652,8 +669,18 @@ def make_superset_rank(case: dict, rng) -> None:
     if len(ks) < 2:
         return
     tgt = rng.choice(ks[1:])
-    extra = [copy.deepcopy(e) for r in ks if r != tgt for e in case["ranks"][r]["events"]
-             if not str(e.get("name", "")).startswith("ProfilerStep")]
+    extra = []
+    for j, r in enumerate(ks):
+        if r == tgt:
+            continue
+        for e in case["ranks"][r]["events"]:
+            if str(e.get("name", "")).startswith("ProfilerStep"):
+                continue
+            e2 = copy.deepcopy(e)
+            a = e2.get("args")
+            if fresh_ids and isinstance(a, dict) and isinstance(a.get("correlation"), int) and a["correlation"] > 0:
+                a["correlation"] += 1000000 * (j + 1)       # the copies keep their pairing but share no id with the rank's own rows
+            extra.append(e2)
     case["ranks"][tgt]["events"].extend(extra)
 
 
@@ -674,6 +701,17 @@ def scale_case(case: dict, k: int) -> None:
     if isinstance(case.get("T"), int):
         case["T"] = case["T"] * k
     case.setdefault("params", {})["time_factor"] = k
+
+
+def scale_case_int32_edge(case: dict) -> None:
+    """times multiplied so that the latest START (counted from the earliest event of the job) just fits in 31 bits while the latest
+    ends do not: columns that are narrowed 'when they fit' meet sums that do not"""
+    ts = [e["ts"] for rk in case["ranks"].values() for e in rk["events"] if isinstance(e.get("ts"), int) and "dur" in e]
+    if not ts or max(ts) == min(ts) or max(ts) > 10 ** 7:
+        return
+    k = (2 ** 31 - 1) // (max(ts) - min(ts))
+    if k > 1:
+        scale_case(case, k)
 
 
 def lookalike_launch_names(case: dict, rng, p: float = 0.3) -> None:
@@ -712,6 +750,17 @@ def big_correlation_ids(case: dict, rng) -> None:
             h, d = rng.choice(hosts), rng.choice(devs)
             rk["events"].append({"ph": "X", "cat": "kernel", "name": "far_id_kernel", "pid": d["pid"], "tid": d["tid"], "ts": h["ts"] + 1, "dur": 1,
                                  "args": {"stream": d["args"]["stream"], "device": d["pid"], "correlation": h["args"]["correlation"] + 2 ** 32}})
+
+
+def huge_thread_ids(case: dict) -> None:
+    """host thread ids as pthread prints them (far beyond 2**31): root ids -abs(tid) must not be narrowed"""
+    for rk in case["ranks"].values():
+        host_tids = sorted({e["tid"] for e in rk["events"] if e.get("ph") == "X" and "dur" in e and isinstance(e.get("tid"), int)
+                            and "stream" not in (e.get("args") or {}) and e.get("cat") in ("cpu_op", "user_annotation", "cuda_runtime", "cuda_driver")})
+        m = {t: 140737353971456 + 4096 * k for k, t in enumerate(host_tids) if t != 0}
+        for e in rk["events"]:
+            if isinstance(e.get("tid"), int) and e["tid"] in m and "stream" not in (e.get("args") or {}) and e.get("cat") not in ("kernel", "gpu_memcpy", "gpu_memset", "cuda_sync", "gpu_user_annotation"):
+                e["tid"] = m[e["tid"]]
 
 
 def add_second_process(case: dict, rng) -> None:
